@@ -153,6 +153,9 @@ pub fn family_specs(thorough: bool, for_ess: bool) -> Vec<FamSpec> {
                 push("iid", 0.0, 0.0, 1.0);
                 push("iid", 0.0, 100.0, 0.5);
                 push("iid", 0.0, -3.0, 40.0);
+                push("iid", 0.0, 0.0, 1e-5);
+                push("ar1", 0.5, 0.0, 3e-6);
+                push("iid", 0.0, 0.0, 1e6);
                 for phi in [0.5, 0.9] {
                     push("ar1", phi, 0.0, 1.0);
                 }
